@@ -118,6 +118,7 @@ def run_history(case, second=False):
     from curtsies.window import CursorAwareWindow
     from curtsies.formatstringarray import fsarray
     H, W = case["H"], case["W"]
+    persist = {}
     res = dict(clause="", detail="", step=None, engine="", disagree="", compared=0)
     term = Terminal(H, W)
     term.feed(pre_stream(case))
@@ -166,6 +167,21 @@ def run_history(case, second=False):
             del chunk[:]
             rows = [mkrow(r) for r in rowspecs]
             array = fsarray(rows) if kind == "fsarray" else rows
+            if case.get("reuse"):
+                # the caller keeps ONE buffer object and edits it in place between renders (what an application's paint loop does)
+                if kind == "fsarray":
+                    if "fs" in persist:
+                        persist["fs"].rows[:] = array.rows
+                        persist["fs"].num_columns = array.num_columns
+                        array = persist["fs"]
+                    else:
+                        persist["fs"] = array
+                else:
+                    if "list" in persist:
+                        persist["list"][:] = rows
+                        array = persist["list"]
+                    else:
+                        persist["list"] = array
             want = [pad(cells(array[k]), W) for k in range(len(array))]
             n = len(want)
             cr, cc = cur
@@ -352,7 +368,9 @@ def _batch(job):
     kind, lo, hi, second = job
     cases = FAMILY_CACHE()[lo:hi] if kind == "family" else [rand_case(s) for s in range(lo, hi)]
     fails, engines, disagree, compared, kinds, keys = [], [], [], 0, {}, set()
-    for c in cases:
+    for n_, c in enumerate(cases):
+        if (lo + n_) % 3 == 1:
+            c = dict(c, reuse=True)         # one buffer object edited in place between the renders
         r = _judge(c, second)
         compared += r["compared"]
         keys.add(repr(c))
